@@ -36,6 +36,13 @@ var errTemplates = map[string]string{
 	"unknown password hash type %q":          "EFmt T_pw_type",
 	"invalid time spec %q: %w":               "EFmt T_time_spec",
 	"unknown data input token %q":            "EFmt T_unknown_token",
+	"invalid decimal %q":                 "EFmt T_invalid_decimal",
+	"failed to decode counter: %w":       "EStd T_hex_counter",
+	"failed to decode challenge: %w":     "EStd T_hex_challenge",
+	"failed to decode password: %w":      "EStd T_hex_password",
+	"failed to decode session info: %w":  "EStd T_hex_session",
+	"failed to decode timestamp: %w":     "EStd T_hex_timestamp",
+	"failed to generate random secret: %w": "EStd T_random",
 	// errors whose text the model does not render (class only): the arguments are dropped
 	"too short time spec":    "EStd 10",
 	"unknown time unit %q":   "EStd 12",
